@@ -16,7 +16,7 @@ CLAIMS = {
              "tree whose leaves mention the variable, c01_each_once, c01_domain_*; proved by structural induction (cond_closed, "
              "cond_dist) for an arbitrary World. Correspondence: result SEQUENCES of the real library vs model vs spec, caching "
              "on/off, two evaluations.",
-        note=BASE_NOTE + "Model layer L1 (no de-dup sets/caches): the cache-on clause is covered by correspondence. Leaves built "
+        note=BASE_NOTE + "Model layer L1 (no de-dup sets/caches); the cache-on clause is C05's c05_single_variable_tree (the L2 machine with caches and duplicate tracking returns the L1 rows on every evaluation, for and/or trees without sub-queries) and the correspondence. Leaves built "
              "from literals only are outside the theorem.",
         tech="Lean 4 proof (structural induction on the condition tree) + translator-regenerated tables + differential correspondence"),
     'C02': dict(
